@@ -162,7 +162,7 @@ def strategy(thorough):
     rebind = st.integers(0, 2).flatmap(lambda i: st.none() if i == 0 else st.builds(
         lambda e, k: dict(e, kind=k), progs.edit_strategy(), st.sampled_from(["var", "varmut", "varmut", "varcopy"])))
     return st.builds(lambda p, c, rb: {"program": p, "configs": c, "rebind": rb},
-                     progs.program_strategy(max_fns=7 if thorough else 5, allow_hidden=False, allow_fdef=True, allow_dictset=True, allow_query=True, allow_mut=True, allow_tuplist=True, allow_twins=True, allow_keyclash=True), cfgs, rebind)
+                     progs.program_strategy(max_fns=7 if thorough else 5, allow_hidden=False, allow_fdef=True, allow_dictset=True, allow_query=True, allow_mut=True, allow_tuplist=True, allow_twins=True, allow_keyclash=True, allow_rename=True), cfgs, rebind)
 
 
 def run_shard(ctx):
